@@ -93,6 +93,14 @@ CLAIMED["C09"] = ("Partial proof, of the strict-decoding clause only: for every 
  "Trusted: gfP.Unmarshal (error exactly for values >= p; lessThanP is assumed), gfP.Set; every field/curve operation in the decoders is havocked (nothing assumed, nothing proved about it).",
  "DESIGN.md §0.2, §4 C09")
 
+CLAIMED["C14"] = ("Partial proof of the gates that keep a wrong key from coming out of a container: SEC1 parseECPrivateKey returns only scalars in [1, n-1] (found and fixed D23: zero was accepted), "
+ "sm2.NewPrivateKey only scalars in [1, n-2] of exactly 32 bytes, ecdh NewPrivateKey refuses 0 and >= n-1 and copies the bytes; ParseEnvelopedPrivateKey returns a key only if its public key "
+ "equals the one carried in the envelope and rejects encrypted keys of partial block length; the pkcs ECB/CBC, cfca and sm9 key decoders under contract return a value or an error for every input "
+ "(shared with C13). Not decided: exact round trip Parse(Marshal(k)) == k for any container (encoding/asn1 reflection, PEM, crypto/x509 are outside the verifier's subset), wrong-password rejection "
+ "(depends on padding/ASN.1 parse of random bytes), GCM tag checks (crypto/cipher).",
+ "Trusted: math/big and internal/bigmod ghost-valued contracts, encoding/asn1.Unmarshal, crypto/elliptic, ecdsa.PublicKey.Equal, cryptobyte readers.",
+ "DESIGN.md §0.2, §4 C14")
+
 NOT_APPLICABLE = {
  "C02": "Not reached by the contract technique in this build: the SM4 round function (S-box tables, 32-bit rotations, XOR network) needs the bit-vector mode of the verifier, which exists only as a skeleton; the AES-NI/AVX assembly tiers are outside any Go-level contract. The Go wrappers around the SM4 assembly that cipher modes use are covered under C03. No other technique was substituted.",
  "C04": "GCM/CCM: table-driven GHASH and the fused SM4-GCM assembly need bit-vector reasoning over carry-less multiplication that the arith-mode VC generator cannot express; CCM's Go glue was planned but not reached in this build.",
